@@ -30,6 +30,7 @@ From Coq Require Import List NArith ZArith Bool Arith Lia.
 From BBS Require Import Common.Sx Persist.PBL Persist.Syncer Persist.Crash Persist.CrashLts
   Persist.CrashEpochProofs Persist.CrashAllocProofs Persist.CrashOffsetsProofs Persist.CrashReuseProofs Persist.CrashSafe Index.RecordCodec Index.RecordCodecProofs Run.R02.
 From BBS Require Persist.CrashRepeat Persist.CrashRepeatShadow Persist.CrashRepeatRec Persist.CrashRepeatSafe.
+From BBS Require Run.R02Mon.
 Import ListNotations.
 Local Open Scope nat_scope.
 
@@ -386,4 +387,279 @@ Proof. repeat split; vm_compute; reflexivity. Qed.
 Example ex2_new_record_not_yet :
   slot_get (m_index ex_m2) 4 None = Some (mkIrec 2 0 6 32 8 2002 0) /\
   resolve_ref (fst (restart (geom ex_g) (m_state ex_m2))) 0 2 0 2002 = None.
+Proof. split; vm_compute; reflexivity. Qed.
+
+(** ---- the monitor of Run/R02.v on the model (Run/R02Mon.v) ----
+    Run/R02.v has no "run02 inp" that generates an observation ([tie_life] validates the
+    implementation's own trace), so the usual "monitor silent on the model" is stated relationally.
+    [R02Mon.model_get_obs g ver H m key o]: [o] is an answer the crash model admits for [Get key] right
+    after the restart on the media [m] of history [H]: NOT_FOUND / UNAVAILABLE (location-map probing and
+    refresh are not modelled: always possible), or a record of the key resolves and the bytes of its
+    location are served — (1 key ver) when the location is exactly the allocation of ONE completed
+    upload (life j, index k) of that key owning every byte of it ([R02Mon.designates]; [ver j k] = the
+    version that upload carried), ANY payload otherwise (foreign bytes).  The monitor's [get_clauses]
+    accepts every such answer: the foreign case is refuted by [repeated_crash], the good case needs only
+    that the history's uploads are uploads the input attempted ([R02Mon.labelled]). *)
+Theorem probe_get_silent_on_model : forall g ver H m opss key o,
+  length (g_locs g) < 65536 -> NoDup (g_locs g) -> (0 < g_sector g)%Z ->
+  CrashRepeat.lives g H m -> R02Mon.labelled ver H opss ->
+  R02Mon.model_get_obs g ver H m key o -> get_clauses opss key o = [].
+Proof.
+  intros g ver H m opss key o G1 G2 G3.
+  exact (R02Mon.probe_get_silent_on_model g ver H m opss key o (conj G1 (conj G2 G3))).
+Qed.
+Print Assumptions probe_get_silent_on_model.
+
+Theorem probe_fm_silent_on_model : forall g m key o, R02Mon.model_fm_obs g m key o -> fm_clauses o = [].
+Proof. exact R02Mon.probe_fm_silent_on_model. Qed.
+Print Assumptions probe_fm_silent_on_model.
+
+(** the foreign disjunct of the model observation is empty (this IS [repeated_crash], at the sx level) *)
+Theorem model_get_obs_never_foreign : forall g ver H m key o,
+  length (g_locs g) < 65536 -> NoDup (g_locs g) -> (0 < g_sector g)%Z ->
+  CrashRepeat.lives g H m -> R02Mon.model_get_obs g ver H m key o ->
+  o = L [A 5%Z] \/ o = L [A 14%Z] \/
+  exists slot r i b j k, resolves g m slot r i /\ Z.of_N (r_key r) = key /\
+    nth_error (blocks (fst (restart (geom g) (m_state m)))) i = Some b /\
+    R02Mon.designates H (b_loc b) r j k /\ o = L [A 0%Z; L [A 1%Z; A key; A (ver j k)]].
+Proof.
+  intros g ver H m key o G1 G2 G3.
+  exact (R02Mon.model_get_obs_never_foreign g ver H m key o (conj G1 (conj G2 G3))).
+Qed.
+Print Assumptions model_get_obs_never_foreign.
+
+(** on a non-empty location "one completed upload with exactly this allocation owns every byte"
+    determines the upload ([towner] is a function), and it is the upload of the record's key *)
+Theorem owner_designates : forall g H m slot r i b j k,
+  length (g_locs g) < 65536 -> NoDup (g_locs g) -> (0 < g_sector g)%Z ->
+  CrashRepeat.lives g H m -> resolves g m slot r i ->
+  nth_error (blocks (fst (restart (geom g) (m_state m)))) i = Some b -> (0 < r_size r)%Z ->
+  R02Mon.owned_by H (b_loc b) r j k -> R02Mon.designates H (b_loc b) r j k.
+Proof.
+  intros g H m slot r i b j k G1 G2 G3.
+  exact (R02Mon.owner_designates g H m slot r i b j k (conj G1 (conj G2 G3))).
+Qed.
+Print Assumptions owner_designates.
+
+(** the probe list ((fm get) per key, key = position): the first component of [mon_life]'s clauses *)
+Theorem probe_silent_on_model : forall g ver H m opss probe,
+  length (g_locs g) < 65536 -> NoDup (g_locs g) -> (0 < g_sector g)%Z ->
+  CrashRepeat.lives g H m -> R02Mon.labelled ver H opss ->
+  R02Mon.indexed (R02Mon.model_probe_obs g ver H m) 0%Z probe ->
+  flat_map (fun kp => fm_clauses (sx_nth (snd kp) 0) ++ get_clauses opss (fst kp) (sx_nth (snd kp) 1))
+           (zip_index 0%Z probe) = [].
+Proof.
+  intros g ver H m opss probe G1 G2 G3.
+  exact (R02Mon.probe_silent_on_model g ver H m opss probe (conj G1 (conj G2 G3))).
+Qed.
+Print Assumptions probe_silent_on_model.
+
+(** [mon_life] decomposed: nothing is reported iff the node is not abnormal, its probe / final / opres
+    components (depth >= 1) are empty, and every experiment's subtree reports nothing *)
+Theorem mon_life_nil_iff : forall f d opss ing obs,
+  mon_life (S f) d opss ing obs = [] <->
+  abnormal obs = false /\
+  (d <> 0 -> R02Mon.probe_clauses (sx_nth ing 0 :: opss) obs = [] /\
+             R02Mon.final_clauses (sx_nth ing 0 :: opss) obs = [] /\
+             R02Mon.opres_clauses (sx_nth ing 0 :: opss) (sx_nth ing 0) obs = []) /\
+  Forall (fun eo => mon_life f (S d) (sx_nth ing 0 :: opss) (sx_nth (fst eo) 6) (sx_nth (snd eo) 4) = [])
+         (combine (sx_list (sx_nth ing 1)) (sx_list (sx_nth obs 6))).
+Proof. exact R02Mon.mon_life_nil_iff. Qed.
+Print Assumptions mon_life_nil_iff.
+
+(** the same lemma for a list of [Get] answers (the shape of [final]) and for the answers to the
+    (5 key) / (6 keys) operations of an op list ([opres]) — WHEN these are model observations of the
+    restart medium, which a running store's answers are only if the life has made no model step *)
+Theorem gets_silent_on_model : forall g ver H m opss gets,
+  length (g_locs g) < 65536 -> NoDup (g_locs g) -> (0 < g_sector g)%Z ->
+  CrashRepeat.lives g H m -> R02Mon.labelled ver H opss ->
+  R02Mon.indexed (R02Mon.model_get_obs g ver H m) 0%Z gets ->
+  flat_map (fun kg => get_clauses opss (fst kg) (snd kg)) (zip_index 0%Z gets) = [].
+Proof.
+  intros g ver H m opss gets G1 G2 G3.
+  exact (R02Mon.gets_silent_on_model g ver H m opss gets (conj G1 (conj G2 G3))).
+Qed.
+Print Assumptions gets_silent_on_model.
+
+Theorem opres_silent_on_model : forall g ver H m opss ops obs,
+  length (g_locs g) < 65536 -> NoDup (g_locs g) -> (0 < g_sector g)%Z ->
+  CrashRepeat.lives g H m -> R02Mon.labelled ver H opss ->
+  Forall (R02Mon.model_opres_obs g ver H m) (combine (sx_list ops) (sx_list (sx_nth obs 3))) ->
+  R02Mon.opres_clauses opss ops obs = [].
+Proof.
+  intros g ver H m opss ops obs G1 G2 G3.
+  exact (R02Mon.opres_silent_on_model g ver H m opss ops obs (conj G1 (conj G2 G3))).
+Qed.
+Print Assumptions opres_silent_on_model.
+
+(** PARTIAL (probe component; final / opres assumed, or of a life without a model step).
+    [R02Mon.model_tree g ver d H m opss ing obs]: the node at depth [d] is not abnormal; at depth >= 1 its
+    probe list consists of model observations for the history [H] (d lives) and its media [m]; its
+    [final] / [opres] components are ASSUMED clean — reads in a running store after the restart, for
+    which the crash model has no observation function (no read event, no volatile view of the data
+    device; a Get may refresh, so a life without uploads is not quiescent either) — or are model
+    observations of the restart medium (a life that made no model step); every experiment is a crash
+    of a model life [lf] on [m] — any reachable state, any log prefix, any loss choice — whose uploads
+    the node's op list attempted, and the subtree is a model tree for [H ++ [lf]] on the media that
+    crash leaves.  On such a tree the monitor reports nothing. *)
+Theorem mon02_silent_on_model_partial : forall g ver fuel ing obs,
+  length (g_locs g) < 65536 -> NoDup (g_locs g) -> (0 < g_sector g)%Z ->
+  R02Mon.model_tree g ver 0 [] medium_empty [] ing obs -> mon_life fuel 0 [] ing obs = [].
+Proof.
+  intros g ver fuel ing obs G1 G2 G3.
+  exact (R02Mon.mon02_silent_on_model_partial g ver (conj G1 (conj G2 G3)) fuel ing obs).
+Qed.
+Print Assumptions mon02_silent_on_model_partial.
+
+Theorem mon_life_silent_on_model_tree : forall g ver fuel d H m opss ing obs,
+  length (g_locs g) < 65536 -> NoDup (g_locs g) -> (0 < g_sector g)%Z ->
+  CrashRepeat.lives g H m -> R02Mon.labelled ver H opss -> R02Mon.model_tree g ver d H m opss ing obs ->
+  mon_life fuel d opss ing obs = [].
+Proof.
+  intros g ver fuel d H m opss ing obs G1 G2 G3.
+  exact (R02Mon.mon_life_silent_on_model_tree g ver (conj G1 (conj G2 G3)) fuel d H m opss ing obs).
+Qed.
+Print Assumptions mon_life_silent_on_model_tree.
+
+(** ---- non-vacuity of the model observations: the two-life history above.  Life 0 uploaded version 0 of
+    key 5, life 1 version 1 of key 6 ([ex_ver]).  After the second crash [Get 5] may be served, and
+    then with exactly (1 5 0): record [ex_rec] (slot 3) resolves to block 0 and bytes 0..19 of its
+    region are all owned by upload 0 of life 0 although life 1 wrote into the same block. ---- *)
+Definition ex_ver (j k : nat) : Z := Z.of_nat j.
+Definition ex_blk : binfo :=
+  match nth_error (blocks (fst (restart (geom ex_g) (m_state ex_m2)))) 0 with Some b => b | None => mkBinfo (0, 0)%Z 0%Z 0%Z 0%Z 0 end.
+
+Lemma ex2_designates : R02Mon.designates [ex_lf1; ex_lf2] (0, 64)%Z ex_rec 0 0.
+Proof.
+  exists ex_lf1. eexists. split; [reflexivity|]. split; [vm_compute; reflexivity|].
+  repeat (split; [vm_compute; reflexivity|]).
+  intros z Hz. change (r_off ex_rec) with 0%Z in Hz. change (r_size ex_rec) with 20%Z in Hz.
+  assert (Hc : (z = 0 \/ z = 1 \/ z = 2 \/ z = 3 \/ z = 4 \/ z = 5 \/ z = 6 \/ z = 7 \/ z = 8 \/ z = 9 \/
+                z = 10 \/ z = 11 \/ z = 12 \/ z = 13 \/ z = 14 \/ z = 15 \/ z = 16 \/ z = 17 \/ z = 18 \/ z = 19)%Z) by lia.
+  repeat (destruct Hc as [->|Hc]; [vm_compute; reflexivity|]). subst z. vm_compute. reflexivity.
+Qed.
+
+Example ex2_get_model_obs :
+  R02Mon.model_get_obs ex_g ex_ver [ex_lf1; ex_lf2] ex_m2 5 (L [A 0; L [A 1; A 5; A 0]])%Z.
+Proof.
+  change (L [A 0; L [A 1; A 5; A 0]])%Z with (L [A 0; L [A 1; A 5; A (ex_ver 0 0)]])%Z.
+  apply (R02Mon.mgo_served ex_g ex_ver [ex_lf1; ex_lf2] ex_m2 5%Z 3 ex_rec 0 ex_blk 0 0).
+  - exact ex2_old_record_resolves.
+  - reflexivity.
+  - vm_compute. reflexivity.
+  - change (b_loc ex_blk) with (0, 64)%Z. exact ex2_designates.
+Qed.
+(** … and the monitor accepts it for every op list in which that upload occurs *)
+Example ex2_get_model_obs_accepted :
+  get_clauses [L [L [A 1; A 6; A 1]]; L [L [A 1; A 5; A 0]]]%Z 5 (L [A 0; L [A 1; A 5; A 0]])%Z = [].
+Proof. vm_compute. reflexivity. Qed.
+
+(** ---- non-vacuity of [model_tree]: a three-level observation tree over the same two-life history.
+    Life 0 runs op list ((1 5 0)) and crashes (experiment 0), life 1 is probed for keys 0..6 — key 5 is
+    served with (1 5 0), everything else misses —, runs ((1 6 1)), is read back (final: keys 5 and 6
+    served) and crashes; life 2 is probed: key 5 still served, key 6 lost (its record does not resolve,
+    [ex2_new_record_not_yet]).  The tree is a model tree, so the monitor is silent on it — and
+    [vm_compute] of the monitor agrees. ---- *)
+Definition ex_miss (k : Z) : sx := L [L [A 0; L [A k]]; L [A 5]]%Z.
+Definition ex_hit5 : sx := L [L [A 0; L []]; L [A 0; L [A 1; A 5; A 0]]]%Z.
+Definition ex_probe : sx := L [ex_miss 0; ex_miss 1; ex_miss 2; ex_miss 3; ex_miss 4; ex_hit5; ex_miss 6]%Z.
+Definition ex_gen2 : sx := L [L []; L []].
+Definition ex_gen1 : sx := L [L [L [A 1; A 6; A 1]]; L [L [A 0; A 0; L []; L []; A 0; A 0; ex_gen2]]]%Z.
+Definition ex_gen0 : sx := L [L [L [A 1; A 5; A 0]]; L [L [A 0; A 0; L []; L []; A 9; A 0; ex_gen1]]]%Z.
+Definition ex_final2 : sx :=
+  L [L [A 5]; L [A 5]; L [A 5]; L [A 5]; L [A 5]; L [A 0; L [A 1; A 5; A 0]]; L [A 5]]%Z.
+Definition ex_obs2 : sx := L [L []; L []; ex_probe; L []; ex_final2; L []; L []; L []].
+Definition ex_final1 : sx :=
+  L [L [A 5]; L [A 5]; L [A 5]; L [A 5]; L [A 5]; L [A 0; L [A 1; A 5; A 0]]; L [A 0; L [A 1; A 6; A 1]]]%Z.
+Definition ex_obs1 : sx :=
+  L [L []; L []; ex_probe; L [L [A 0]]; ex_final1; L []; L [L [A 2; L []; L []; A 0; ex_obs2]]; L []]%Z.
+Definition ex_obs0 : sx :=
+  L [L []; L []; L []; L [L [A 0]]; L []; L []; L [L [A 11; L []; L []; A 0; ex_obs1]]; L []]%Z.
+
+Lemma ex1_designates : R02Mon.designates [ex_lf1] (0, 64)%Z ex_rec 0 0.
+Proof.
+  exists ex_lf1. eexists. split; [reflexivity|]. split; [vm_compute; reflexivity|].
+  repeat (split; [vm_compute; reflexivity|]).
+  intros z Hz. change (r_off ex_rec) with 0%Z in Hz. change (r_size ex_rec) with 20%Z in Hz.
+  assert (Hc : (z = 0 \/ z = 1 \/ z = 2 \/ z = 3 \/ z = 4 \/ z = 5 \/ z = 6 \/ z = 7 \/ z = 8 \/ z = 9 \/
+                z = 10 \/ z = 11 \/ z = 12 \/ z = 13 \/ z = 14 \/ z = 15 \/ z = 16 \/ z = 17 \/ z = 18 \/ z = 19)%Z) by lia.
+  repeat (destruct Hc as [->|Hc]; [vm_compute; reflexivity|]). subst z. vm_compute. reflexivity.
+Qed.
+
+Lemma ex_ups1 : cs_ups (CrashRepeat.lf_c ex_lf1) = [mkUp 5 0 0 20 20 (UpFin true)].
+Proof. vm_compute. reflexivity. Qed.
+Lemma ex_ups2 : cs_ups (CrashRepeat.lf_c ex_lf2) = [mkUp 6 0 32 8 8 (UpFin true)].
+Proof. vm_compute. reflexivity. Qed.
+Lemma ex_labelled1 : R02Mon.labelled ex_ver [ex_lf1] [L [L [A 1; A 5; A 0]]]%Z.
+Proof.
+  intros j lf k up Hj Hk. destruct j as [|j]; [|destruct j; discriminate]. injection Hj as <-.
+  rewrite ex_ups1 in Hk. destruct k as [|k]; [|destruct k; discriminate]. injection Hk as <-.
+  vm_compute. reflexivity.
+Qed.
+Lemma ex_labelled2 : R02Mon.labelled ex_ver [ex_lf1; ex_lf2] [L [L [A 1; A 6; A 1]]; L [L [A 1; A 5; A 0]]]%Z.
+Proof.
+  intros j lf k up Hj Hk. destruct j as [|[|j]]; [| |destruct j; discriminate]; injection Hj as <-.
+  - rewrite ex_ups1 in Hk. destruct k as [|k]; [|destruct k; discriminate]. injection Hk as <-.
+    vm_compute. reflexivity.
+  - rewrite ex_ups2 in Hk. destruct k as [|k]; [|destruct k; discriminate]. injection Hk as <-.
+    vm_compute. reflexivity.
+Qed.
+
+Ltac ex_probe_misses :=
+  repeat match goal with
+  | |- _ /\ _ => split
+  | |- R02Mon.model_probe_obs _ _ _ _ _ _ => split
+  | |- R02Mon.model_fm_obs _ _ _ _ => apply R02Mon.mfo_missing
+  | |- R02Mon.model_get_obs _ _ _ _ _ _ => apply R02Mon.mgo_miss
+  | |- True => exact I
+  end.
+
+Lemma ex_blk_loc : b_loc ex_blk = (0, 64)%Z.
+Proof. vm_compute. reflexivity. Qed.
+
+Example ex_tree_model : R02Mon.model_tree ex_g ex_ver 0 [] medium_empty [] ex_gen0 ex_obs0.
+Proof.
+  apply R02Mon.mt_node; [reflexivity|intros Hd; exfalso; apply Hd; reflexivity|].
+  constructor; [|constructor].
+  exists ex_lf1. split; [exists ex_tr; vm_compute; reflexivity|]. split; [exact ex_labelled1|].
+  (* life 1: history [ex_lf1], media ex_m1 *)
+  apply R02Mon.mt_node; [reflexivity| |].
+  - intros _. split; [|split; left; vm_compute; reflexivity].
+    cbn [fst snd ex_obs1 ex_probe ex_miss ex_hit5 sx_nth sx_list nth R02Mon.indexed]. ex_probe_misses.
+    + apply (R02Mon.mfo_present ex_g _ _ 3 ex_rec 0); [exact ex_resolves_after_commit|reflexivity].
+    + apply (R02Mon.mgo_served ex_g ex_ver _ _ _ 3 ex_rec 0 ex_blk 0 0);
+        [exact ex_resolves_after_commit|reflexivity|vm_compute; reflexivity|rewrite ex_blk_loc; exact ex1_designates].
+  - constructor; [|constructor].
+    exists ex_lf2. split; [exists ex_tr2; vm_compute; reflexivity|]. split; [exact ex_labelled2|].
+    (* life 2: history [ex_lf1; ex_lf2], media ex_m2 *)
+    apply R02Mon.mt_node; [reflexivity| |constructor].
+    assert (Hserved : R02Mon.model_get_obs ex_g ex_ver (([] ++ [ex_lf1]) ++ [ex_lf2])
+                        (crash_of (crash_of medium_empty (CrashRepeat.lf_c ex_lf1) (CrashRepeat.lf_n ex_lf1) (CrashRepeat.lf_ch ex_lf1))
+                                  (CrashRepeat.lf_c ex_lf2) (CrashRepeat.lf_n ex_lf2) (CrashRepeat.lf_ch ex_lf2))
+                        (0 + 1 + 1 + 1 + 1 + 1)%Z (L [A 0; L [A 1; A 5; A 0]])%Z).
+    { apply (R02Mon.mgo_served ex_g ex_ver _ _ _ 3 ex_rec 0 ex_blk 0 0);
+        [exact ex2_old_record_resolves|reflexivity|vm_compute; reflexivity|rewrite ex_blk_loc; exact ex2_designates]. }
+    intros _. split; [|split; [right|left; vm_compute; reflexivity]].
+    + cbn [fst snd ex_obs1 ex_obs2 ex_probe ex_miss ex_hit5 sx_nth sx_list nth R02Mon.indexed]. ex_probe_misses.
+      * apply (R02Mon.mfo_present ex_g _ _ 3 ex_rec 0); [exact ex2_old_record_resolves|reflexivity].
+      * exact Hserved.
+    + cbn [fst snd ex_obs1 ex_obs2 ex_final2 sx_nth sx_list nth R02Mon.indexed]. ex_probe_misses. exact Hserved.
+Qed.
+Example ex_tree_silent : mon_life 6 0 [] ex_gen0 ex_obs0 = [].
+Proof.
+  apply (mon02_silent_on_model_partial ex_g ex_ver); [apply Nat.ltb_lt; vm_compute; reflexivity| |reflexivity|].
+  - repeat (constructor; [cbn [In]; intuition discriminate|]). constructor.
+  - exact ex_tree_model.
+Qed.
+(** the monitor is not silent by construction: the same tree with foreign bytes served for key 5 after
+    the second restart is reported (clause 1) *)
+Definition ex_probe_bad : sx :=
+  L [ex_miss 0; ex_miss 1; ex_miss 2; ex_miss 3; ex_miss 4; L [L [A 0; L []]; L [A 0; L [A 2; A 20; L []]]]; ex_miss 6]%Z.
+Definition ex_obs0_bad : sx :=
+  L [L []; L []; L []; L [L [A 0]]; L []; L [];
+     L [L [A 11; L []; L []; A 0;
+           L [L []; L []; ex_probe; L [L [A 0]]; ex_final1; L [];
+              L [L [A 2; L []; L []; A 0; L [L []; L []; ex_probe_bad; L []; L []; L []; L []; L []]]]; L []]]]; L []]%Z.
+Example ex_tree_wrong_bytes_caught :
+  mon_life 6 0 [] ex_gen0 ex_obs0 = [] /\ mon_life 6 0 [] ex_gen0 ex_obs0_bad = [1%Z].
 Proof. split; vm_compute; reflexivity. Qed.
